@@ -66,10 +66,23 @@ def requested_pairs(F, T):
 # ------------------------------------------------------------------ real side
 def build_project(n):
     import rv.api as api
-    p = api.Project()
-    for _ in range(n - 1):
-        p.new_module(api.m.Amplifier)
+    p = workload.new_project(every=4)
+    for k in range(n - 1):
+        _BUILD[0] += 1
+        how = _BUILD[0] % 5
+        if how == 1:
+            # the owner named at construction (a documented constructor keyword), attached afterwards
+            p.attach_module(api.m.Amplifier(parent=p))
+        elif how == 2:
+            p.new_module(api.m.Amplifier, parent=p)
+        elif how == 3:
+            p += api.m.Amplifier()
+        else:
+            p.new_module(api.m.Amplifier)
     return p
+
+
+_BUILD = [0]
 
 
 def state_of(p):
